@@ -17,6 +17,7 @@ import GoNfsd.Model.Txn
 import GoNfsd.Lemmas.AllocTxn
 import GoNfsd.Lemmas.Cache
 import GoNfsd.Lemmas.NameCache
+import GoNfsd.Lemmas.NameCachePage
 
 namespace GoNfsd.Props.C10
 open GoNfsd.Model.Codec GoNfsd.Gen.Consts
@@ -363,6 +364,28 @@ theorem a_name_cache_kept_across_an_abort_contradicts_the_directory :
     let kept : Dir := { slots := s.saved, dc := s.cur.dc }      -- the abort undoes the slots and KEEPS the cache
     (lookupName kept [97]).2 = none ∧ lookupSlots kept.slots [97] = some (5, 0) ∧
     ((GoNfsd.Model.NameCache.addName kept 6 [97]).1.slots.filter fun sl => sl.inum ≠ 0 ∧ sl.name = [97]).length = 2 := by decide
+
+/-- `mkDcache` IS THE UNBOUNDED LISTING: the code builds the name cache by `ApplyEnts` — the very loop behind READDIR,
+    M6's `readdirPage`, tied to the code by every listing reply — with the callback `Dcache.Add`; whenever the budget lies
+    above the estimate of the whole directory (the code passes 2^64−1) the result is the cache of model M8e, so
+    `name_cache_is_the_directory` speaks about what `mkDcache` builds. -/
+theorem mkDcache_is_the_listing_with_an_unbounded_budget (slots : List Slot) (count : Nat) (h : 64 + cost slots < count) :
+    buildFromPage slots count = build slots :=
+  mkDcache_with_enough_budget_is_build slots count h
+
+/-- a directory of ".", ".." and seventeen names of 112 bytes -/
+def longName (k : Nat) : GoNfsd.Model.Fs.Bytes := List.replicate 111 97 ++ [UInt8.ofNat k]
+def bigDir : List Slot :=
+  [{ inum := 2, name := [46] }, { inum := 1, name := [46, 46] }] ++ (List.range 17).map fun k => { inum := 10 + k, name := longName k }
+
+set_option maxRecDepth 100000 in
+/-- … and with the directory's SIZE as the budget (seeded changes C10k / C04l) it is not: `ApplyEnts` charges 32 bytes plus
+    the name per entry, a slot has 128, so with names of more than 96 bytes the estimate overtakes the size — the last of
+    the seventeen names is on disk and not in the rebuilt cache (the next CREATE of it writes it a second time). -/
+theorem a_rebuild_bounded_by_the_directory_size_misses_entries :
+    ((buildFromPage bigDir (bigDir.length * DIRENTSZ)).lookup (longName 16)) = none ∧
+    lookupSlots bigDir (longName 16) = some (26, 18) := by decide
+
 
 end namecache
 
